@@ -25,7 +25,15 @@ EXPLANATION = (
     "is not such a gate: segment 0 is falsy), the record is reset on both outcomes of the segment Deferred before a "
     "callback continues the read, and nobody else resets it without cancelling the request; (8) whoever retires the "
     "node's active fetcher - _cancel_request, also through same-class helpers, and the delivery/failure handlers - "
-    "resets _active_segment and then calls _start_new_segment(), so requests queued by other reads are served; "
+    "resets _active_segment and then calls _start_new_segment(), so requests queued by other reads are served; an exit of "
+    "the delivery callback is exempt from that exactly when its path passed an edge on which `self._active_segment is not X` "
+    "holds (negated `is`, either operand order, `!=`; the test may sit in a flag or in a helper that is one `return <test>`), "
+    "X being a capture: a local of the registering function read from self._active_segment on every path to the "
+    "registration, never re-bound, with no store to the slot from the read to that function's exit, closed over by the "
+    "callback or handed to it as extra callback argument (or a parameter that every caller fills with the calling fetcher "
+    "itself) - the cancel path has then already retired that fetcher, removed its requests and started the next one; an "
+    "early return behind anything else (an unrelated test, `is None`, a value read from the slot inside the callback) is "
+    "still reported; "
     "(2b) stopProducing cancels its handle on every path on which the handle was not seen to be unset; (3b) an assertion of "
     "Segmentation.__init__ about offset/size/file size is no stronger than offset + size <= file size (reads up to EOF pass); "
     "(9) every read() - DownloadNode, CiphertextFileNode, ImmutableFileNode, LiteralFileNode - returns on every path a "
@@ -45,8 +53,25 @@ EXPLANATION = (
     "fetcher makes that report only on paths whose edge facts imply segnum >= the node's count, and every pass of its loop "
     "method that goes on or returns has seen segnum < count (integer-exact: `<= count` is not enough), the count still a "
     "guess, or the fetcher stopped - else it has made the report; DownloadNode.get_num_segments answers (num_segments, True) "
-    "on every path on which num_segments was not seen to be None.  "
-    "Undecided: the past-the-end check when it is moved into a helper whose result the loop method must honour, the "
+    "on every path on which num_segments was not seen to be None; "
+    "(13) ownership of the fetcher slot across asynchronous gaps: every function DownloadNode hands to addCallback / "
+    "addErrback / addBoth / addCallbacks (also wrapped in eventually) or to eventually() / callLater() - nested function, "
+    "lambda or method, followed into the same-class methods and sibling closures it calls - stores to self._active_segment "
+    "only on paths that compared the slot with a capture (see 8) and found it identical, or saw the slot empty (is None / "
+    "falsy: installing into a free slot orphans nobody), or installed its content themselves, and dereferences "
+    "self._active_segment.<attr> (also through a local read from the slot) only on paths that found it identical to a "
+    "capture; a helper method that stores to the slot ends that knowledge. A completion overtaken by _cancel_request "
+    "therefore cannot clear the slot of the next fetcher (orphaning it, fetching its segment twice) nor raise / fail into "
+    "a read that cancelled nothing. fetch_failed, _cancel_request, stop and _start_new_segment called synchronously are "
+    "not continuations and are decided by (2)/(8).  "
+    "Undecided: whether a foreign call made between the identity check and the store can re-enter the node and change the "
+    "slot (log.msg, seg_ev.*, fetcher.stop/add_shares are assumed not to), continuations registered on the node's behalf "
+    "outside DownloadNode (ShareFinder / Share call got_shares, no_more_shares: they address whichever fetcher is current), "
+    "generator-style gaps (none in the class), a guard hidden in a helper that is not a single `return <test>` (reported as "
+    "ANALYSIS-ERROR, not as a violation), whether a truthiness-guarded dereference in a continuation is intended for "
+    "whichever fetcher is current (reported: the rule demands the identity check); (13) is not adopted by C46 - an "
+    "overtaken completion duplicates fetches and fails unrelated reads, but no schedule was found on which a read hangs; "
+    "the the past-the-end check when it is moved into a helper whose result the loop method must honour, the "
     "BADSEGNUM notification of Share (the fetcher's own check at the top of the next pass makes up for it), "
     "outcomes of interleavings, Twisted producer/consumer flow control beyond the pause/resume flag (the "
     "_alive gate, _hungry/_alive after completion or stopProducing, register/unregisterProducer), a "
@@ -56,7 +81,9 @@ EXPLANATION = (
 TECHNIQUE = ("static analysis: who-may-write/call sweeps, CFG gate rules on the cancel path (inter-procedural typestate with "
              "function summaries), in-class route gating of get_segment, normal forms of the clip and trim, Deferred callback-chain "
              "order and result flow, must-follow rules for start/deliver, integer-exact implication of segnum/count edge facts "
-             "on the fetcher's bad-segment-number path, trapped failure classes of the retry errback")
+             "on the fetcher's bad-segment-number path, trapped failure classes of the retry errback, "
+             "continuation discovery (Deferred registrations / eventually) with a CFG x (owned, empty) typestate of the fetcher slot "
+             "whose identity-test edges are judged against reaching-definition captures taken before the asynchronous gap")
 
 NODE = "immutable.downloader.node:DownloadNode"
 SEG = "immutable.downloader.segmentation:Segmentation"
@@ -76,6 +103,42 @@ def all_funcs_of(ci):
 
 
 ACTIVE = "self._active_segment"
+
+
+def follow_copies(sym, node, expr, depth=6):
+    """(node, expr): plain-name copies (`rv = x; return rv`) followed to the expression that defines the value, with
+    the CFG node at which that expression is evaluated.  Stops at a name with several (or no) reaching definitions."""
+    while depth > 0 and isinstance(expr, ast.Name):
+        ds = sym.rd.get(node.id, {}).get(expr.id, frozenset())
+        if len(ds) != 1:
+            break
+        (d,) = tuple(ds)
+        if d == C.PARAM_DEF:
+            break
+        dn = sym.cfg.nodes[d]
+        v = sym.fnorm._def_value(dn, expr.id)
+        if v is None:
+            break
+        node, expr, depth = dn, v, depth - 1
+    return node, expr
+
+
+def copy_root(sym, node, expr, depth=6):
+    """(node, name expr): like follow_copies, but stops at the last plain name of the chain (the variable that was
+    bound to a non-name value), so that what is registered on / stored through that variable can be looked up."""
+    while depth > 0 and isinstance(expr, ast.Name):
+        ds = sym.rd.get(node.id, {}).get(expr.id, frozenset())
+        if len(ds) != 1:
+            break
+        (d,) = tuple(ds)
+        if d == C.PARAM_DEF:
+            break
+        dn = sym.cfg.nodes[d]
+        v = sym.fnorm._def_value(dn, expr.id)
+        if not isinstance(v, ast.Name):
+            break
+        node, expr, depth = dn, v, depth - 1
+    return node, expr
 
 
 def _is_none(v):
@@ -880,7 +943,7 @@ def run_isolation(ctx, r):
               gs, gs.loc(ap), "the queued request is %s, not (segnum, fresh Deferred, fresh Cancel(self._cancel_request), ..)" % kinds[:3])
     rets = gs.cfg().find(is_return)
     for n in rets:
-        v = n.ast.value
+        v = follow_copies(gss, n, n.ast.value)[1] if n.ast.value is not None else None
         okr = isinstance(v, ast.Tuple) and len(v.elts) == 2 and ok and all(isinstance(x, ast.Name) for x in v.elts) and \
             [x.id for x in v.elts] == [e.id if isinstance(e, ast.Name) else None for e in tup.elts[1:3]]
         r.require(okr, gs, gs.loc(n.ast), "get_segment returns %s, not the (Deferred, Cancel) it queued" % src(gs, v))
@@ -1013,10 +1076,9 @@ def run_cancel(ctx, r):
     ers = Sym(idx, er)
     rv = rets[0].ast.value
     if isinstance(rv, ast.Name):
-        d_ = ers.rd.get(rets[0].id, {}).get(rv.id, frozenset())
-        rv = ers.fnorm._def_value(er.cfg().nodes[next(iter(d_))], rv.id) if len(d_) == 1 else rv
-        r.require(len(d_) == 1 and not dominated_by(er.cfg(), keep[0], er.cfg().nodes[next(iter(d_))]), er, er.loc(rets[0].ast),
-                  "the retired requests are computed after the queue was already filtered")
+        dnode, rv = follow_copies(ers, rets[0], rv)
+        r.require(dnode is not rets[0] and not isinstance(rv, ast.Name) and not dominated_by(er.cfg(), keep[0], dnode),
+                  er, er.loc(rets[0].ast), "the retired requests are computed after the queue was already filtered")
     rf = comp_filter(er, rv, "retire")
     r.require(rf is not None and rf[0] == (SI, "==", ep[0]), er, er.loc(rets[0].ast),
               "requests retired for segment %s: %s" % (ep[0], src(er, rv)))
@@ -1449,6 +1511,16 @@ def callback_func(fn, t):
     return self_method_value(fn, t)
 
 
+class _Flow:
+    """Reaching definitions of one function, in the shape follow_copies / copy_root expect."""
+
+    def __init__(self, fn):
+        self.fn = fn
+        self.cfg = fn.cfg()
+        self.fnorm = FlowNorm(fn)
+        self.rd = self.fnorm.rd
+
+
 def callback_returns(fn, t):
     """(parameter names, [normal form of the value returned on each normal way out]) of a callback; 'None' stands
     for falling off the end.  (None, []) when the callback cannot be resolved."""
@@ -1459,10 +1531,11 @@ def callback_returns(fn, t):
         return [a.arg for a in g.args.args], [nf(g.body)]
     cfg = g.cfg()
     out = []
+    flow = _Flow(g)
     for (pid, lab) in cfg.pred[cfg.exit.id]:
         pn = cfg.nodes[pid]
         if is_return(pn) and pn.ast.value is not None:
-            out.append(nf(pn.ast.value))
+            out.append(nf(follow_copies(flow, pn, pn.ast.value)[1]))
         else:
             out.append("None")
     return first_positional_params(g), out
@@ -1512,8 +1585,11 @@ def returned_deferred(sym, rn):
     base, chain = unchain(rn.ast.value)
     regs = []
     if isinstance(base, ast.Name):
+        at = rn
+        if not chain:
+            at, base = copy_root(sym, rn, base)       # rv = d; return rv
         regs = [(x.kind, x.target, x.errtarget, x.call) for x in registrations(fn, base.id)]
-        origin, chain0 = unchain(sym.expand(rn, base))
+        origin, chain0 = unchain(sym.expand(at, base))
         # a chain assigned to the name (d = f().addCallback(..)) is already part of registrations()
     else:
         for c in chain:
@@ -1607,6 +1683,7 @@ def run_result(ctx, r):
             r.violation(start_fn, start_fn.loc(n.ast), "Segmentation.%s returns None, not the Deferred of the read" % start_fn.name)
             continue
         base, _ch = unchain(n.ast.value)
+        base = follow_copies(ss, n, base)[1]
         r.require(nf(base) in dattrs, start_fn, start_fn.loc(n.ast), "Segmentation.%s returns %s, but the read is completed "
                   "through %s" % (start_fn.name, nf(base), " / ".join(sorted(dattrs))))
     for da in sorted(dattrs):
@@ -2193,6 +2270,11 @@ def run_clip(ctx, r):
             f = fnorm.edge_fact(n, lab)
             if f and f[0] == "is" and {f[1], f[2]} == {"None", rp[2]}:
                 dn = cfg.nodes[d]
+                while dn.kind == "stmt" and rp[2] not in node_stores(dn):       # statements that do not bind the size
+                    nx = [x for (x, l) in cfg.succ[dn.id] if l != "exc"]
+                    if len(nx) != 1:
+                        break
+                    dn = cfg.nodes[nx[0]]
                 v = assign_value(dn, rp[2])
                 none_ok = v is not None and nf(v) == "self._verifycap.size"
                 r.require(none_ok, rd, rd.loc(dn.ast), "size=None is replaced by %s, not by the file size" % (nf(v) if v is not None else src(rd, dn.ast)))
@@ -2349,11 +2431,11 @@ def run_trim(ctx, r):
     cks = Sym(idx, ck)
     r.site(ck, None, "segment label segnum * segment_size")
     for n in ck.cfg().find(is_return):
-        v = n.ast.value
+        at, v = follow_copies(cks, n, n.ast.value) if n.ast.value is not None else (n, None)
         okc = isinstance(v, ast.Tuple) and len(v.elts) == 3 and \
-            nrm.poly(cks.expand(n, v.elts[0])) == Poly.atom(ckp[1]) * Poly.atom("self.segment_size")
+            nrm.poly(cks.expand(at, v.elts[0])) == Poly.atom(ckp[1]) * Poly.atom("self.segment_size")
         r.require(okc, ck, ck.loc(n.ast), "a segment is labelled with start %s, not segnum * segment_size" % (
-            nf(cks.expand(n, v.elts[0])) if isinstance(v, ast.Tuple) and v.elts else src(ck, v)))
+            nf(cks.expand(at, v.elts[0])) if isinstance(v, ast.Tuple) and v.elts else src(ck, v)))
     # completion: size == 0 fires the Deferred with the consumer
     done = [n for n in fn_.cfg().find(has_call("callback"))]
     fnorm3 = fnorm2
